@@ -10,6 +10,9 @@ impl Variant {
     pub fn from_bool(value: bool) -> Variant { Variant::Bool(value) }
     pub fn empty(t: VariantType) -> Variant { Variant::Empty(t) }
 }
+#[allow(unused_imports)]
+use crate::util::capitalize;
+fn is_float(v: &Variant, x: f64) -> bool { matches!(v, Variant::Float(f) if *f == x) }
 fn sv(x: &str) -> String { String::from(x) }
 fn is_str(v: &Variant, x: &str) -> bool { matches!(v, Variant::Str(s) if s == x) }
 fn is_empty_value(v: &Variant) -> bool { matches!(v, Variant::Empty(_)) || is_str(v, "") }
